@@ -5,6 +5,7 @@
 #include "cdf.hpp"
 #include "api.hpp"
 #include <cstring>
+#include <list>
 
 typedef __int128 i128;
 
@@ -13,18 +14,20 @@ BigCase bigcase_decode(const std::vector<long long> &v) {
     c.format = (int)nx(); int nd = (int)nx(); for (int i = 0; i < nd; i++) c.dimlen.push_back(nx());
     int nv = (int)nx(); for (int i = 0; i < nv; i++) { BigCase::Var x; x.type = (int)nx(); int k = (int)nx(); for (int j = 0; j < k; j++) x.dimids.push_back((int)nx()); c.vars.push_back(x); }
     int na = (int)nx(); for (int i = 0; i < na; i++) { BigCase::Acc a; a.var = (int)nx(); a.mode = (int)nx(); a.writer = (int)nx(); int k = (int)nx(); for (int j = 0; j < k; j++) a.start.push_back(nx()); for (int j = 0; j < k; j++) a.count.push_back(nx()); for (int j = 0; j < k; j++) a.stride.push_back(nx()); c.acc.push_back(a); }
+    c.split = (int)nx(); c.aggr = (int)nx();
     return c;
 }
 std::vector<long long> bigcase_encode(const BigCase &c) {
     std::vector<long long> v; v.push_back(c.format); v.push_back((long long)c.dimlen.size()); for (auto d : c.dimlen) v.push_back(d);
     v.push_back((long long)c.vars.size()); for (auto &x : c.vars) { v.push_back(x.type); v.push_back((long long)x.dimids.size()); for (auto d : x.dimids) v.push_back(d); }
     v.push_back((long long)c.acc.size()); for (auto &a : c.acc) { v.push_back(a.var); v.push_back(a.mode); v.push_back(a.writer); v.push_back((long long)a.start.size()); for (auto x : a.start) v.push_back(x); for (auto x : a.count) v.push_back(x); for (auto x : a.stride) v.push_back(x); }
+    v.push_back(c.split); v.push_back(c.aggr);
     return v;
 }
 std::string bigcase_text(const BigCase &c) {
     std::string s = "CDF-" + std::to_string(c.format) + " dims=["; for (size_t i = 0; i < c.dimlen.size(); i++) s += (i ? "," : "") + (c.dimlen[i] == 0 ? std::string("UNLIMITED") : std::to_string(c.dimlen[i]));
     s += "] vars=["; for (size_t i = 0; i < c.vars.size(); i++) { s += (i ? " " : "") + std::string(nc_type_name(c.vars[i].type)) + "("; for (size_t k = 0; k < c.vars[i].dimids.size(); k++) s += (k ? "," : "") + std::to_string(c.vars[i].dimids[k]); s += ")"; }
-    s += "] accesses=" + std::to_string(c.acc.size());
+    s += "] accesses=" + std::to_string(c.acc.size()); if (c.split) s += " redef-after-var#" + std::to_string(c.split); if (c.aggr) s += " aggrs-per-node=" + std::to_string(c.aggr);
     return s;
 }
 
@@ -96,7 +99,9 @@ void run_bigcase(const Op &op, int rank, int nprocs, const std::function<void(co
     const char *path = "/sim/big.nc";
     int cmode = NC_CLOBBER | (c.format == 2 ? NC_64BIT_OFFSET : c.format == 5 ? NC_64BIT_DATA : 0);
     int ncid = -1; sim::set_in_lib(true);
-    int rc = ncmpi_create(MPI_COMM_WORLD, path, cmode, MPI_INFO_NULL, &ncid);
+    MPI_Info info = MPI_INFO_NULL; if (c.aggr > 0) { MPI_Info_create(&info); MPI_Info_set(info, "nc_num_aggrs_per_node", std::to_string(c.aggr).c_str()); }
+    int rc = ncmpi_create(MPI_COMM_WORLD, path, cmode, info, &ncid);
+    if (info != MPI_INFO_NULL) MPI_Info_free(&info);
     sim::set_in_lib(false);
     if (rc != NC_NOERR) { fail("big-create", "ncmpi_create failed: " + std::string(ncmpi_strerrno(rc))); return; }
     auto lib = [&](const std::function<int()> &f) { sim::set_in_lib(true); int x = f(); sim::set_in_lib(false); return x; };
@@ -113,21 +118,41 @@ void run_bigcase(const Op &op, int rank, int nprocs, const std::function<void(co
     }
     if (!dims_ok) { lib([&] { return ncmpi_abort(ncid); }); return; }
     std::vector<int> varid(c.vars.size(), -1);
-    for (size_t i = 0; i < c.vars.size(); i++) {
-        std::vector<int> ids; for (auto d : c.vars[i].dimids) ids.push_back(dimid[d]);
-        std::string nm = "v" + std::to_string(i);
-        rc = lib([&] { return ncmpi_def_var(ncid, nm.c_str(), (nc_type)c.vars[i].type, (int)ids.size(), ids.data(), &varid[i]); });
-        if (rc != NC_NOERR) {
-            std::string w2; if (!(rc == NC_EVARSIZE && bigcase_expect_enddef(c, w2) == 1)) fail("big-defvar", "def_var " + nm + " failed: " + ncmpi_strerrno(rc));   // rejecting an impossible size already at def_var is as good as at enddef
-            lib([&] { return ncmpi_abort(ncid); }); return;
+    auto define = [&](size_t from, size_t to, const BigCase &whole) -> bool {
+        for (size_t i = from; i < to; i++) {
+            std::vector<int> ids; for (auto d : c.vars[i].dimids) ids.push_back(dimid[d]);
+            std::string nm = "v" + std::to_string(i);
+            rc = lib([&] { return ncmpi_def_var(ncid, nm.c_str(), (nc_type)c.vars[i].type, (int)ids.size(), ids.data(), &varid[i]); });
+            if (rc != NC_NOERR) {
+                std::string w2; if (!(rc == NC_EVARSIZE && bigcase_expect_enddef(whole, w2) == 1)) fail("big-defvar", "def_var " + nm + " failed: " + ncmpi_strerrno(rc));   // rejecting an impossible size already at def_var is as good as at enddef
+                lib([&] { return ncmpi_abort(ncid); }); return false;
+            }
         }
+        return true;
+    };
+    auto leave_define = [&](const BigCase &defs, const char *when) -> bool {
+        std::string why; int expect = bigcase_expect_enddef(defs, why);
+        rc = lib([&] { return ncmpi_enddef(ncid); });
+        if (expect == 1 && rc != NC_EVARSIZE) fail("big-enddef", std::string(when) + "ncmpi_enddef returned " + std::string(ncmpi_strerrno(rc)) + " but the definitions break the size rules of CDF-" + std::to_string(c.format) + " (" + why + "): expected NC_EVARSIZE");
+        if (expect == 0 && rc != NC_NOERR) fail("big-enddef", std::string(when) + "ncmpi_enddef rejected definitions that satisfy the size rules of CDF-" + std::to_string(c.format) + " with " + ncmpi_strerrno(rc));
+        if (expect == 2 && rc != NC_NOERR && rc != NC_EVARSIZE) fail("big-enddef", std::string(when) + "ncmpi_enddef returned " + std::string(ncmpi_strerrno(rc)));
+        if (rc != NC_NOERR) { lib([&] { return ncmpi_abort(ncid); }); return false; }
+        return true;
+    };
+    size_t first = (c.split > 0 && (size_t)c.split < c.vars.size()) ? (size_t)c.split : c.vars.size();
+    if (first < c.vars.size()) {
+        // two define-mode sessions: the size rules are a property of the whole variable list, whichever session a variable was defined in
+        BigCase pre = c; pre.vars.resize(first); pre.acc.clear();
+        if (!define(0, first, pre)) return;
+        if (!leave_define(pre, "(first session) ")) return;
+        rc = lib([&] { return ncmpi_redef(ncid); });
+        if (rc != NC_NOERR) { fail("big-redef", "ncmpi_redef failed: " + std::string(ncmpi_strerrno(rc))); finish(); return; }
+        if (!define(first, c.vars.size(), c)) return;
+        if (!leave_define(c, "(after redef) ")) return;
+    } else {
+        if (!define(0, c.vars.size(), c)) return;
+        if (!leave_define(c, "")) return;
     }
-    std::string why; int expect = bigcase_expect_enddef(c, why);
-    rc = lib([&] { return ncmpi_enddef(ncid); });
-    if (expect == 1 && rc != NC_EVARSIZE) fail("big-enddef", "ncmpi_enddef returned " + std::string(ncmpi_strerrno(rc)) + " but the definitions break the size rules of CDF-" + std::to_string(c.format) + " (" + why + "): expected NC_EVARSIZE");
-    if (expect == 0 && rc != NC_NOERR) fail("big-enddef", "ncmpi_enddef rejected definitions that satisfy the size rules of CDF-" + std::to_string(c.format) + " with " + ncmpi_strerrno(rc));
-    if (expect == 2 && rc != NC_NOERR && rc != NC_EVARSIZE) fail("big-enddef", "ncmpi_enddef returned " + std::string(ncmpi_strerrno(rc)));
-    if (rc != NC_NOERR) { lib([&] { return ncmpi_abort(ncid); }); return; }
     // ---- header on the simulated disk: strict decode, layout rules (order, overlap, vsize saturation), CDF-1 offsets
     MPI_Barrier(MPI_COMM_WORLD);
     cdf::File d; auto ino = sim::g->fs.lookup(path);
@@ -142,56 +167,91 @@ void run_bigcase(const Op &op, int rank, int nprocs, const std::function<void(co
     // ---- accesses on both sides of 2^31 / 2^32
     int unlim = -1; for (size_t i = 0; i < c.dimlen.size(); i++) if (c.dimlen[i] == 0) unlim = (int)i;
     long long tag = 1;
-    for (size_t ai = 0; ai < c.acc.size(); ai++) {
-        const BigCase::Acc &a = c.acc[ai]; if (a.var < 0 || a.var >= (int)c.vars.size()) continue;
-        const BigCase::Var &v = c.vars[a.var]; const cdf::Var &dv = d.vars[a.var]; size_t nd = v.dimids.size(); if (a.start.size() != nd) continue;
-        bool isrec = nd > 0 && v.dimids[0] == unlim; int type = v.type; int xs = xsz_of(type);
-        long long n = 1; for (auto x : a.count) n *= x; if (n <= 0 || n > 64) continue;
-        bool strided = a.mode == 2;
+    i128 recsize = 0; { int nrv = 0; i128 only = 0; for (auto &x : c.vars) { bool xr = !x.dimids.empty() && x.dimids[0] == unlim; if (!xr) continue; i128 b = xsz_of(x.type); for (size_t k = 1; k < x.dimids.size(); k++) b *= (i128)c.dimlen[x.dimids[k]]; nrv++; only = b; recsize += (b + 3) / 4 * 4; } if (nrv == 1) recsize = only; }   // record size by the format rule, exact arithmetic
+    struct Prep { size_t ai = 0; bool ok = false, iw = false, strided = false; long long n = 0; int type = 0, xs = 0, mt = 0, ms = 0, form = 0, req = NC_REQ_NULL; std::vector<i128> offs; std::vector<long long> vals; std::vector<uint8_t> wbuf; };
+    auto prep = [&](size_t ai) -> Prep {
+        Prep P; P.ai = ai; const BigCase::Acc &a = c.acc[ai]; if (a.var < 0 || a.var >= (int)c.vars.size()) return P;
+        const BigCase::Var &v = c.vars[a.var]; const cdf::Var &dv = d.vars[a.var]; size_t nd = v.dimids.size(); if (a.start.size() != nd) return P;
+        bool isrec = nd > 0 && v.dimids[0] == unlim; P.type = v.type; P.xs = xsz_of(P.type);
+        long long n = 1; for (auto x : a.count) n *= x; if (n <= 0 || n > 64) return P;
+        P.n = n; P.strided = a.mode == 2;
         // element list (row-major over count) -> file offset by the format rule, from the independently decoded header
-        std::vector<i128> offs; std::vector<long long> idx(nd, 0);
-        i128 recsize = 0; { int nrv = 0; i128 only = 0; for (auto &x : c.vars) { bool xr = !x.dimids.empty() && x.dimids[0] == unlim; if (!xr) continue; i128 b = xsz_of(x.type); for (size_t k = 1; k < x.dimids.size(); k++) b *= (i128)c.dimlen[x.dimids[k]]; nrv++; only = b; recsize += (b + 3) / 4 * 4; } if (nrv == 1) recsize = only; }   // record size by the format rule, exact arithmetic
+        std::vector<long long> idx(nd, 0);
         for (long long e = 0; e < n; e++) {
             i128 lin = 0; long long rec = 0;
-            for (size_t k = 0; k < nd; k++) { long long pos = a.start[k] + idx[k] * (strided ? a.stride[k] : 1); if (isrec && k == 0) { rec = pos; continue; } lin = lin * (i128)c.dimlen[v.dimids[k]] + pos; }
-            offs.push_back((i128)dv.begin + (isrec ? (i128)rec * recsize : 0) + lin * xs);
+            for (size_t k = 0; k < nd; k++) { long long pos = a.start[k] + idx[k] * (P.strided ? a.stride[k] : 1); if (isrec && k == 0) { rec = pos; continue; } lin = lin * (i128)c.dimlen[v.dimids[k]] + pos; }
+            P.offs.push_back((i128)dv.begin + (isrec ? (i128)rec * recsize : 0) + lin * P.xs);
             for (int k = (int)nd - 1; k >= 0; k--) { if (++idx[k] < a.count[k]) break; idx[k] = 0; }
         }
-        bool toobig = false; for (auto o : offs) if (o > ((i128)1 << 62)) toobig = true; if (toobig) continue;
-        int mt = native_memtype(type); int ms = mt_size(mt);
-        std::vector<uint8_t> wbuf((size_t)n * ms), rbuf((size_t)n * ms, 0xA5); std::vector<long long> vals((size_t)n);
-        for (long long e = 0; e < n; e++) { vals[e] = (tag * 7 + e * 3 + (long long)ai) % 100 + 1; write_mem(wbuf.data() + e * ms, mt, vals[e]); } tag++;
-        std::vector<long long> zc(nd, 0);
-        bool iw = (rank == a.writer % nprocs);
-        const long long *st = a.start.data(), *ct = iw ? a.count.data() : zc.data(), *sd = strided ? a.stride.data() : nullptr;
-        int form = strided ? F_VARS : F_VARA;
-        if (a.mode == 1) {
-            int req = NC_REQ_NULL; int prc = NC_NOERR;
-            if (iw) prc = lib([&] { return api_typed(K_IPUT, form, false, ncid, varid[a.var], (const MPI_Offset *)st, (const MPI_Offset *)ct, (const MPI_Offset *)sd, nullptr, wbuf.data(), mt, &req); });
-            if (prc != NC_NOERR) fail("big-access", "iput at " + std::to_string(a.start.empty() ? 0 : a.start[0]) + ".. failed: " + ncmpi_strerrno(prc));
-            int stt = NC_NOERR; int nreq = (iw && req != NC_REQ_NULL) ? 1 : 0; rc = lib([&] { return ncmpi_wait_all(ncid, nreq, &req, &stt); });
-            if (rc != NC_NOERR || stt != NC_NOERR) fail("big-access", "wait_all after iput failed: " + std::string(ncmpi_strerrno(rc != NC_NOERR ? rc : stt)));
-        } else {
-            rc = lib([&] { return api_typed(K_PUT, form, true, ncid, varid[a.var], (const MPI_Offset *)st, (const MPI_Offset *)ct, (const MPI_Offset *)sd, nullptr, wbuf.data(), mt, nullptr); });
-            if (rc != NC_NOERR) fail("big-access", "put of " + std::to_string(n) + " element(s) of v" + std::to_string(a.var) + " failed: " + ncmpi_strerrno(rc));
-        }
-        lib([&] { return ncmpi_sync(ncid); }); MPI_Barrier(MPI_COMM_WORLD);
+        for (auto o : P.offs) if (o > ((i128)1 << 62)) return P;
+        P.mt = native_memtype(P.type); P.ms = mt_size(P.mt);
+        P.wbuf.resize((size_t)n * P.ms); P.vals.resize((size_t)n);
+        for (long long e = 0; e < n; e++) { P.vals[e] = (tag * 7 + e * 3 + (long long)ai) % 100 + 1; write_mem(P.wbuf.data() + e * P.ms, P.mt, P.vals[e]); } tag++;
+        P.iw = (rank == a.writer % nprocs); P.form = P.strided ? F_VARS : F_VARA; P.ok = true;
+        return P;
+    };
+    // after the data has been made visible: rank 0 looks at the raw image, then every rank reads the access back with a blocking collective get
+    auto verify = [&](Prep &P) {
+        const BigCase::Acc &a = c.acc[P.ai]; size_t ai = P.ai; long long n = P.n; int xs = P.xs;
         if (rank == 0) {   // the bytes sit where the format says
             for (long long e = 0; e < n; e++) {
-                uint8_t want[8], got[8] = {0}; enc_be(want, type, vals[e]);
-                unsigned long long off = (unsigned long long)offs[e];
+                uint8_t want[8], got[8] = {0}; enc_be(want, P.type, P.vals[e]);
+                unsigned long long off = (unsigned long long)P.offs[e];
                 if (off + xs > ino->vis.size) { fail("big-offset", "element " + std::to_string(e) + " of access #" + std::to_string(ai) + " should be at byte " + std::to_string(off) + " but the file has only " + std::to_string(ino->vis.size) + " bytes"); break; }
                 ino->vis.read(off, got, xs);
                 if (memcmp(want, got, xs)) { fail("big-offset", "element " + std::to_string(e) + " of access #" + std::to_string(ai) + " (v" + std::to_string(a.var) + ") is not at byte offset " + std::to_string(off) + " where the format puts it"); break; }
             }
         }
         MPI_Barrier(MPI_COMM_WORLD);
-        // every rank reads it back
-        rc = lib([&] { return api_typed(K_GET, form, true, ncid, varid[a.var], (const MPI_Offset *)st, (const MPI_Offset *)a.count.data(), (const MPI_Offset *)sd, nullptr, rbuf.data(), mt, nullptr); });
+        std::vector<uint8_t> rbuf((size_t)n * P.ms, 0xA5); const long long *sd = P.strided ? a.stride.data() : nullptr;
+        rc = lib([&] { return api_typed(K_GET, P.form, true, ncid, varid[a.var], (const MPI_Offset *)a.start.data(), (const MPI_Offset *)a.count.data(), (const MPI_Offset *)sd, nullptr, rbuf.data(), P.mt, nullptr); });
         if (rc != NC_NOERR) fail("big-access", "get of access #" + std::to_string(ai) + " failed: " + ncmpi_strerrno(rc));
-        else for (long long e = 0; e < n; e++) { long long g; if (!read_mem(rbuf.data() + e * ms, mt, g) || g != vals[e]) { fail("big-readback", "element " + std::to_string(e) + " of access #" + std::to_string(ai) + " read back as " + std::to_string(g) + ", written " + std::to_string(vals[e])); break; } }
+        else for (long long e = 0; e < n; e++) { long long g; if (!read_mem(rbuf.data() + e * P.ms, P.mt, g) || g != P.vals[e]) { fail("big-readback", "element " + std::to_string(e) + " of access #" + std::to_string(ai) + " read back as " + std::to_string(g) + ", written " + std::to_string(P.vals[e])); break; } }
         MPI_Barrier(MPI_COMM_WORLD);
+    };
+    auto make_visible = [&]() { lib([&] { return ncmpi_sync(ncid); }); MPI_Barrier(MPI_COMM_WORLD); };
+    std::list<Prep> pend;   // posted, not yet waited for (list: the buffers must not move)
+    auto complete_pending = [&]() {
+        std::vector<int> reqs; for (auto &P : pend) if (P.iw && P.req != NC_REQ_NULL) reqs.push_back(P.req);
+        std::vector<int> stt(reqs.size() + 1, NC_NOERR);
+        rc = lib([&] { return ncmpi_wait_all(ncid, (int)reqs.size(), reqs.data(), stt.data()); });
+        int bad = rc; for (size_t k = 0; k < reqs.size(); k++) if (bad == NC_NOERR) bad = stt[k];
+        if (bad != NC_NOERR) fail("big-access", "wait_all after " + std::to_string(pend.size()) + " iput(s) failed: " + std::string(ncmpi_strerrno(bad)));
+        make_visible();
+        for (auto &P : pend) verify(P);
+        pend.clear();
+    };
+    for (size_t ai = 0; ai < c.acc.size(); ai++) {
+        const BigCase::Acc &a = c.acc[ai];
+        Prep P0 = prep(ai); if (!P0.ok) continue;
+        std::vector<long long> zc(a.start.size(), 0);
+        const long long *sd = P0.strided ? a.stride.data() : nullptr;
+        if (a.mode == 1 || a.mode == 3) {
+            pend.push_back(std::move(P0)); Prep &P = pend.back(); int prc = NC_NOERR;
+            if (P.iw) prc = lib([&] { return api_typed(K_IPUT, P.form, false, ncid, varid[a.var], (const MPI_Offset *)a.start.data(), (const MPI_Offset *)a.count.data(), (const MPI_Offset *)sd, nullptr, P.wbuf.data(), P.mt, &P.req); });
+            if (prc != NC_NOERR) fail("big-access", "iput at " + std::to_string(a.start.empty() ? 0 : a.start[0]) + ".. failed: " + ncmpi_strerrno(prc));
+            if (a.mode == 1) complete_pending();
+            continue;
+        }
+        if (a.mode == 4 && ai + 1 < c.acc.size() && c.acc[ai + 1].mode == 5 && c.acc[ai + 1].var == a.var && nprocs >= 2 && (c.acc[ai + 1].writer % nprocs) != (a.writer % nprocs)) {
+            // one collective call, two ranks with a block each
+            Prep P1 = prep(ai + 1);
+            if (P1.ok && !P1.strided) {
+                const BigCase::Acc &b = c.acc[ai + 1];
+                const long long *st = P1.iw ? b.start.data() : a.start.data(), *ct = P0.iw ? a.count.data() : P1.iw ? b.count.data() : zc.data(); void *buf = P1.iw ? (void *)P1.wbuf.data() : (void *)P0.wbuf.data();
+                rc = lib([&] { return api_typed(K_PUT, F_VARA, true, ncid, varid[a.var], (const MPI_Offset *)st, (const MPI_Offset *)ct, nullptr, nullptr, buf, P0.mt, nullptr); });
+                if (rc != NC_NOERR) fail("big-access", "collective put with two writing ranks failed: " + std::string(ncmpi_strerrno(rc)));
+                make_visible(); verify(P0); verify(P1); ai++; continue;
+            }
+        }
+        {
+            const long long *ct = P0.iw ? a.count.data() : zc.data();
+            rc = lib([&] { return api_typed(K_PUT, P0.form, true, ncid, varid[a.var], (const MPI_Offset *)a.start.data(), (const MPI_Offset *)ct, (const MPI_Offset *)sd, nullptr, P0.wbuf.data(), P0.mt, nullptr); });
+            if (rc != NC_NOERR) fail("big-access", "put of " + std::to_string(P0.n) + " element(s) of v" + std::to_string(a.var) + " failed: " + ncmpi_strerrno(rc));
+            make_visible(); verify(P0);
+        }
     }
+    if (!pend.empty()) complete_pending();
     finish();
     // ---- the file the library just wrote must open again (the size rules are re-checked on open) with the same layout
     MPI_Barrier(MPI_COMM_WORLD);
